@@ -25,7 +25,7 @@ def _compute_dim(w, o): return w.input_dim(o, "compute")
 
 
 SCHEMA = {
-    ("UsagePattern", "utc_hourly_usage_journey_starts"): ("E|H", DIMLESS),
+    ("UsagePattern", "utc_hourly_usage_journey_starts"): ("H", DIMLESS),
     ("UsagePattern", "nb_usage_journeys_in_parallel"): ("E|H", DIMLESS),
     ("UsagePattern", "devices_energy"): ("E|H", ENERGY),
     ("UsagePattern", "devices_energy_footprint"): ("E|H", MASS),
@@ -139,6 +139,10 @@ class World:
         self._calc_cache[cname] = list(c.calculated_attributes.fget(o))
         return self._calc_cache[cname]
 
+    def can_be_negative(self, cname):
+        try: return list(self.classes[cname].attributes_that_can_have_negative_values())
+        except Exception: return []
+
     def input_params(self, cname):
         c = self.classes[cname]
         out = {}
@@ -196,6 +200,8 @@ class World:
             phys = z3.Function(base + ".phys", I_, R)(o.index); fac = z3.Function(base + ".factor", I_, R)(o.index)
             emp = z3.Function(base + ".empty", I_, B)(o.index)
         I.eng.assume(fac > 0)
+        if attr not in self.can_be_negative(o.cls):
+            I.eng.assume(phys >= 0)       # validated input invariant (check_input_value_type_positivity_and_unit)
         e = Expl("eq", Qty(phys, Unit(dim, fac, base)), Label(True, base), attached=(o.key(attr)), fresh_obj=False,
                  source=Opaque("source", base))
         e.owner, e.attr = o, attr
@@ -215,7 +221,7 @@ class World:
             e = Expl("eq", Qty(fn(".phys", R), Unit(dim, fac, base)), Label(True, base), attached=o.key(attr), fresh_obj=False)
             e.owner, e.attr = o, attr
             return e if kinds == "Q" else ExplU(fn(".empty", B), e)
-        if kinds == "E|H":
+        if kinds in ("E|H", "H"):
             fac = fn(".factor", R); I.eng.assume(fac > 0)
             lit = self.schema_lookup(UNIT_INV, o.cls, attr)
             if lit is not None: fac = self.units.literal(lit).f
@@ -229,6 +235,7 @@ class World:
             e = Expl("ehq", DF(vec, Unit(dim, fac, base)), Label(True, base), attached=o.key(attr), fresh_obj=False)
             e.owner, e.attr = o, attr
             I.eng.assume(vec.n >= 1)       # an hourly attribute holds at least one hour (an empty result is an EmptyExplainableObject)
+            if kinds == "H": return e
             return ExplU(fn(".empty", B), e)
         raise Unsupported(f"schema kind {kinds}")
 
@@ -242,7 +249,15 @@ class World:
         if n in ("ServerTypes",): return IP.ClassRef(n)
         return None
 
-    def model_eq(self, I, a, b): return None
+    def model_eq(self, I, a, b):
+        """ModelingObject.__eq__ = equality of ids.  The object under verification (`self`) against the (i, j)-th element
+        of a nested symbolic list: an uninterpreted predicate (the element may or may not be this very object)"""
+        for x, y in ((a, b), (b, a)):
+            if isinstance(x, ModelObj) and isinstance(y, ModelObj) and x.index is None and isinstance(y.index, tuple):
+                return z3.Function(f"is[{x.name}]:{y.family}", I_, I_, B)(*y.index)
+            if isinstance(x, ModelObj) and isinstance(y, ModelObj) and x.index is None and y.index is not None and not isinstance(y.index, tuple):
+                return z3.Function(f"is[{x.name}]:{y.family}", I_, B)(y.index)
+        return None
     def contains(self, I, container, x): return None
     def subscript(self, I, base, key):
         if isinstance(base, SList):
@@ -334,12 +349,20 @@ class World:
         if lst is not None or look is not None:
             ecls, unordered = lst if lst is not None else (look, True)
             fam = f"{o.family}.{name}"
-            if o.index is not None: raise Unsupported(f"list attribute {name} of an indexed object")
+            if o.index is not None:
+                if isinstance(o.index, tuple): raise Unsupported(f"list attribute {name} of a doubly indexed object")
+                n = z3.Function(fam + ".len", I_, I_)(o.index)
+                eng.assume(n >= 0)
+                v = SList(n, None, fam, unordered=unordered)
+                v.elem_dims = {}
+                v.elem = lambda j, fam=fam, ecls=ecls, v=v, I=I, oi=o.index: self.elem2(fam, ecls, oi, j, I)
+                o.attrs[name] = v
+                return v
             n = z3.Int(fam + ".len")
             eng.assume(n >= 0)
             v = SList(n, None, fam, unordered=unordered)
             v.elem_dims = {}
-            v.elem = lambda i, fam=fam, ecls=ecls, v=v, I=I: self.elem(fam, ecls, i, v.elem_dims, I)
+            v.elem = lambda i, fam=fam, ecls=ecls, v=v, I=I: self.elem(fam, ecls, i, v.elem_dims, I, v)
             hook = self.list_hooks.get((self.defining(o.cls, name, LISTS, LOOKUPS), name))
             if hook: hook(I, o, v)
             o.attrs[name] = v
@@ -354,13 +377,23 @@ class World:
             return self.invoke(I, o, k, mod, fn, [], {})
         return IP.BoundMethod(o, name)
 
-    def elem(self, fam, ecls, i, dims=None, I=None):
+    def elem(self, fam, ecls, i, dims=None, I=None, lst=None):
         i = z3.simplify(i) if z3.is_expr(i) else z3.IntVal(i)
         key = ("elem", fam, i.get_id())
         if I is not None and key in I.eng.run.cache: return I.eng.run.cache[key][1]
         o = self.new_obj(ecls, f"{fam}[{i}]", index=i, family=fam)
         o.dims = dims or {}
         if I is not None: I.eng.run.cache[key] = (i, o)
+        if lst is not None and getattr(lst, "elem_facts", None): lst.elem_facts(I, o)
+        return o
+
+    def elem2(self, fam, ecls, i, j, I):
+        i = z3.simplify(i); j = z3.simplify(j) if z3.is_expr(j) else z3.IntVal(j)
+        key = ("elem2", fam, i.get_id(), j.get_id())
+        if key in I.eng.run.cache: return I.eng.run.cache[key][2]
+        o = self.new_obj(ecls, f"{fam}[{i}][{j}]", index=(i, j), family=fam)
+        o.dims = {}
+        I.eng.run.cache[key] = (i, j, o)
         return o
 
     def defining(self, cname, attr, *tables):
@@ -430,12 +463,23 @@ class UPDict:
         self.fresh = False
 
     def get(self, I, key):
-        if not isinstance(key, ModelObj) or key.index is None:
-            raise Unsupported("dict key is not a usage pattern of a symbolic list")
+        if not isinstance(key, ModelObj) or isinstance(key.index, tuple):
+            raise Unsupported("dict key is not a usage pattern")
+        o = self.owner
+        if key.index is None:
+            k = key.name
+            if k in self.written: return self.written[k]
+            if self.fresh: raise SymRaise("KeyError", f"{self.attr}[{k}]")
+            base = f"{o.family}.{self.attr}[{key.name}]"
+            fac = z3.Real(base + ".factor"); I.eng.assume(fac > 0)
+            vec = base_vec(base); I.eng.assume(vec.n >= 1)
+            e = Expl("ehq", DF(vec, Unit(self.dim, fac, base)), Label(True, base), attached=(o.key(self.attr) + (k,)), fresh_obj=False)
+            v = ExplU(z3.Bool(base + ".empty"), e)
+            self.written[k] = v
+            return v
         k = str(z3.simplify(key.index))
         if k in self.written: return self.written[k]
         if self.fresh: raise SymRaise("KeyError", f"{self.attr}[{k}]")
-        o = self.owner
         base = f"{o.family}.{self.attr}[{key.family}]"
         idx = key.index
         fac = z3.Function(base + ".factor", I_, R)(idx); I.eng.assume(fac > 0)
